@@ -4,7 +4,7 @@ ID = "C02"
 LEVEL = "proof"
 TAGS = ("C02",)
 CONTRACT_MODULES = ALL_CONTRACTS
-FUNCTIONS = [S + "processLinearMoves", S + "isAnyPointExcluded", S + "isPointExcluded", S + "processExtendedGcode"] + HANDLER_FUNCS + [S + "resetState"]
+FUNCTIONS = [S + "processLinearMoves", S + "isAnyPointExcluded", S + "isPointExcluded", S + "processExtendedGcode"] + HANDLER_FUNCS + [S + "resetState"] + [P + "on_event"]
 ASSUMPTIONS = ["A1", "A2", "A3", "A4", "INDUCTION"]
 BOUNDED = [script("retract_params.py")]
 EXTRA_ASSUMPTIONS = ["GCODE_PARAMS_REGEX.sub is seen as the uninterpreted function 'parameter text of the command'; checked bounded (bounded/retract-params)",
